@@ -34,6 +34,18 @@ def mk(ctx, _ty, _hint='', **fields):
     return Agg(name, [fields[f] for f in order])
 
 
+def mk_pointee(ctx, _ty, _hint='', **fields):
+    """pointee of a token (an immutable shared object whose fields are functions of the token): a field the source struct has gained
+    since is an opaque placeholder - obligations that never look at it are unaffected, a use of it stops that path (exit 2)"""
+    order = ctx.src.struct_fields(_ty, _hint)
+    if order is not None:
+        fields = dict(fields)
+        for f in order:
+            if f not in fields:
+                fields[f] = Opaque('added-field:%s.%s' % (_ty, f))
+    return mk(ctx, _ty, _hint, **fields)
+
+
 def _constructed(ctx, name):
     p = getattr(ctx, 'cur_path', None)
     if p is None:
@@ -125,13 +137,13 @@ def install_tokens(ctx):
     def topic(ip, tok):
         from models_async import SenderM
         ip.path.assume(z3.And(t_iid(tok) >= 0, t_iid(tok) < (1 << 32)))
-        return mk(ctx, 'Topic', 'topics/topic', name=mk(ctx, 'TopicName', project_id=StrTok(t_proj(tok)), topic_id=StrTok(t_id(tok))),
+        return mk_pointee(ctx, 'Topic', 'topics/topic', name=mk(ctx, 'TopicName', project_id=StrTok(t_proj(tok)), topic_id=StrTok(t_id(tok))),
                   internal_id=S(t_iid(tok), 'u32'), sender=SenderM('topic', tok))
 
     def subscription(ip, tok):
         from models_async import SenderM
         ip.path.assume(z3.And(s_iid(tok) >= 0, s_iid(tok) < (1 << 32)))
-        return mk(ctx, 'Subscription', 'subscriptions/subscription',
+        return mk_pointee(ctx, 'Subscription', 'subscriptions/subscription',
                   name=mk(ctx, 'SubscriptionName', project_id=StrTok(s_proj(tok)), subscription_id=StrTok(s_id(tok))),
                   topic=WeakV(ArcTok(s_topic(tok), 'Topic'), s_topic_alive(tok)), internal_id=S(s_iid(tok), 'u32'),
                   sender=SenderM('subscription', tok),
